@@ -418,7 +418,19 @@ def build_raw_part(rng):
     # existing measures: a random subset of the true bars (so gaps remain)
     existing = 0
     mode = rng.random()
-    for (a, b) in bars:
+    spanning = None
+    if t_change is not None and rng.random() < 0.3:
+        # an existing measure that reaches over the signature change (it began under the old signature)
+        i_ = next(i for i, (a, b) in enumerate(bars) if a == t_change)
+        if i_ >= 1 and bars[i_][1] <= end:
+            a0 = bars[i_ - 1][0] + rng.choice([0, 0, max(0, (bars[i_ - 1][1] - bars[i_ - 1][0]) // 2)])
+            b0 = rng.choice([bars[i_][1], t_change + max(1, (bars[i_][1] - t_change) // 2)])
+            spanning = (a0, b0, i_)
+            part.add(S.Measure(number=rng.randint(1, 9)), a0, b0)
+            existing += 1
+    for j_, (a, b) in enumerate(bars):
+        if spanning is not None and j_ in (spanning[2] - 1, spanning[2]):
+            continue
         if (mode < 0.3) or (mode < 0.7 and rng.random() < 0.4):
             if b <= end:
                 part.add(S.Measure(number=rng.randint(1, 9)), a, b)
@@ -466,6 +478,9 @@ def run_item(ctx, item):
     if kind == "raw":
         rng = ctx.rng("raw", item[1])
         part, meta = build_raw_part(rng)
+        if rng.random() < 0.15:
+            part.use_musical_beat()           # bars are still as long as the signature says
+            ctx.extra["raw_parts_counting_in_musical_beats"] += 1
         n_before = len(timemaps.objects_of(part, S.Note))
         seq = rng.choice([["add_measures", "tie_notes", "find_tuplets", "fill_rests", "sanitize_part"],
                           ["add_measures", "tie_notes"], ["add_measures", "find_tuplets", "tie_notes"],
